@@ -316,6 +316,9 @@ def handle (st : State) (cmd : String) (inp obsToks : List String) : State × St
             some s!"PROPFAIL C04 soil_ageing previous={prev} now={now} aged={aged}"
           else none
         (st', bad.getD "ok")
+  -- differential run SI vs SEI with latency 0 (whole Model runs compared by the harness)
+  | "hp.l0", [_n] =>
+    (st, if obsToks.head? == some "equal" then "ok" else s!"PROPFAIL C05 L0_differs_from_SI {" ".intercalate (obsToks.take 40)}")
   | "hp.uniforms", [us] =>
     match (us.splitOn ",").mapM parseInt? with
     | some l => ({ st with uniforms := l.map fun k => mkRat k 1048576 }, "ok")
